@@ -826,62 +826,96 @@ def gamma_entries(items):
     return sorted((v, var_dim(v)) for v in vs if var_dim(v) is not None)
 
 
-TABLES = [("hookFormulas", ("hook", "sum")), ("junctions", ("chain",)), ("contourFns", ("contour", "resolve")),
-          ("residuals", ("residual",)), ("fixedPointMaps", ("map",)), ("closedForms", ("closed",)),
-          ("brackets", ("bracket",)), ("starts", ("start",)), ("plumbing", ("plumb",)),
-          ("decisions", ("decision",)), ("geomArgs", ("arg",))]
+def str_code(s):
+    """mirror of `Dims.strCode` (lean/PyrollModel/Dims.lean)"""
+    h = 1
+    for b in s.encode("utf-8"):
+        h = h * 256 + b
+    return h
+
+
+# generated modules: (suffix, item kinds, [(table name, kinds)])
+MODULES = [
+    ("Hooks", ("hook", "sum"), [("hookFormulas", ("hook", "sum"))]),
+    ("Geom", ("chain", "contour", "resolve", "residual", "map", "bracket", "start"),
+     [("junctions", ("chain",)), ("contourFns", ("contour", "resolve")), ("residuals", ("residual",)),
+      ("fixedPointMaps", ("map",)), ("brackets", ("bracket",)), ("starts", ("start",))]),
+    ("Closed", ("closed", "plumb"), [("closedForms", ("closed",)), ("plumbing", ("plumb",))]),
+    ("Sites", ("decision", "isclose", "arg"), [("decisions", ("decision", "isclose")), ("geomArgs", ("arg",))]),
+]
+HEADER = ("/- GENERATED by driver/translate/c11_dims.py from /repo's working tree on every run - do not edit.\n"
+          "   One `Expr` per closed-form expression of the anchored files and one kernel-evaluated certificate `<name>_dim`\n"
+          "   per expression, relative to the declared variable typing `Γ` of Gen/C11Gamma.lean.\n"
+          "   Prefixes: (file key)_ hook implementations; g_ groove junction chain; s_ solver residuals / closed forms /\n"
+          "   brackets / start values; p_ constructor plumbing; d_ decisions (comparison `a ? b` as the term `a - b`,\n"
+          "   `np.isclose(a, b)` as `|a-b| - (atol + rtol |b|)`) and geometry-call arguments. -/")
 
 
 def emit(ctx, data, pid="C11"):
+    """writes Gen/C11Gamma.lean (Γ), Gen/C11Hooks.lean, Gen/C11Geom.lean, Gen/C11Closed.lean, Gen/C11Sites.lean (definitions + certificates,
+    built in parallel) and Gen/C11.lean (the tables `inhomogeneous`, `table`, `opaqueBrackets`)"""
     items = data["items"]
-    L = ["import PyrollModel.Impl",
-         "/- GENERATED by driver/translate/c11_dims.py from /repo's working tree on every run - do not edit.",
-         "   One `Expr` per closed-form expression of the anchored files, the declared variable typing `Γ` (exponent of the",
-         "   length unit per attribute path) and one kernel-evaluated certificate `<name>_dim` per expression.",
-         "   Prefixes: (file key)_  hook implementations; g_ groove junction chain; s_ solver residuals / closed forms /",
-         "   brackets / start values; p_ constructor plumbing; d_ decisions (comparison `a ? b` as the term `a - b`,",
-         "   `np.isclose(a, b)` as `|a-b| - (atol + rtol |b|)`) and geometry-call arguments. -/",
-         f"namespace Gen.{pid}", "",
-         "structure Entry where", "  name : String", "  key : String", "  src : String", "  e : Expr", "  d : Int", "",
-         "/-- certificate: homogeneous of degree `d` (the literal `0` is homogeneous of every degree) -/",
-         "def Cert (Γ : String → Option Int) (e : Expr) (d : Int) : Prop := Expr.dim Γ e = .is d ∨ Expr.dim Γ e = .zero",
-         "instance (Γ : String → Option Int) (e : Expr) (d : Int) : Decidable (Cert Γ e d) := by unfold Cert; infer_instance",
-         "",
-         "/-- declared length dimension of every variable (attribute path) that occurs below -/",
-         "def Γ : String → Option Int := dimOf ["]
+    gen = os.path.join(LEAN_DIR, "PyrollModel", "Gen")
+    rewritten = {}
+
+    def write(name, lines):
+        text = "\n".join(lines) + "\n"
+        rewritten[name] = pyexpr.write_if_changed(os.path.join(gen, name + ".lean"), text)
+
     ge = gamma_entries(items)
-    L.append(",\n".join(f"  ({pyexpr.lean_str(v)}, {d})" for v, d in ge) + "]")
-    L.append("")
-    for it in items:
-        L.append(f"/-- {it.kind}: {it.src} {it.key}" + (f" ({it.note})" if it.note else "") + " -/")
-        L.append(f"def {it.lean} : Expr := {pyexpr.lean_expr(it.expr)}")
-        L.append(f"theorem {it.lean}_dim : Expr.dim Γ {it.lean} = {lean_dim(it.got)} := by decide")
-    L.append("")
+    write(f"{pid}Gamma", [
+        "import PyrollModel.Dims",
+        "/- GENERATED by driver/translate/c11_dims.py (the declared table is `DIMS` there) - do not edit. -/",
+        f"namespace Gen.{pid}", "open Dims", "",
+        "/-- declared length dimension of every variable (attribute path) that occurs in the generated terms -/",
+        "def gammaTable : List (String × Int) := [",
+        ",\n".join(f"  ({pyexpr.lean_str(v)}, {d})" for v, d in ge) + "]",
+        "/-- the same table keyed by `Dims.strCode` of the name -/",
+        "def gammaCodes : List (Nat × Int) := [",
+        ",\n".join(f"  ({str_code(v)}, {d})" for v, d in ge) + "]",
+        "theorem gammaCodes_eq : gammaCodes = gammaTable.map (fun p => (strCode p.1, p.2)) := by decide +kernel",
+        "def Γ : String → Option Int := gammaOf gammaCodes", "",
+        f"end Gen.{pid}"])
 
     def entry(it):
         return (f"  ⟨{pyexpr.lean_str(it.lean)}, {pyexpr.lean_str(it.key)}, {pyexpr.lean_str(it.src)}, {it.lean}, "
-                f"{it.d}⟩")
-    for tname, kinds in TABLES:
-        sel = [it for it in items if it.kind in kinds and it.ok]
-        L.append(f"def {tname} : List Entry := [")
-        L.append(",\n".join(entry(it) for it in sel) + "]")
-        L.append(f"theorem {tname}_cert : ∀ en ∈ {tname}, Cert Γ en.e en.d := by decide")
+                f"{it.d}, {'Or.inr' if it.got == ZERO else 'Or.inl'} {it.lean}_dim⟩")
+
+    for suffix, kinds, tables in MODULES:
+        mine = [it for it in items if it.kind in kinds]
+        L = [f"import PyrollModel.Gen.{pid}Gamma", HEADER, f"namespace Gen.{pid}", "open Dims", ""]
+        for it in mine:
+            L.append(f"/-- {it.kind}: {it.src} {it.key}" + (f" ({it.note})" if it.note else "") + " -/")
+            L.append(f"def {it.lean} : Expr := {pyexpr.lean_expr(it.expr)}")
+            L.append(f"theorem {it.lean}_dim : Expr.dim Γ {it.lean} = {lean_dim(it.got)} := by decide +kernel")
         L.append("")
-    bad = [it for it in items if not it.ok]
-    L.append("/-- everything whose dimension certificate is NOT the declared one: absolute tolerances, unit-bound formulas -/")
-    L.append("def inhomogeneous : List Entry := [")
-    L.append(",\n".join(entry(it) for it in bad) + "]")
-    L.append("theorem inhomogeneous_cert : ∀ en ∈ inhomogeneous, ¬ Cert Γ en.e en.d := by decide")
-    L.append("")
-    L.append("/-- textual brackets / start values of the numeric oracles that are not closed-form expressions -/")
-    L.append("def opaqueBrackets : List (String × String) := [" + ", ".join(
-        f"({pyexpr.lean_str(a)}, {pyexpr.lean_str(b)})" for a, b in data["opaque_brackets"]) + "]")
-    L.append("")
-    L.append("/-- every definition by name (for the Float evaluation driver) -/")
-    L.append("def table : List (String × Expr) := [" + ", ".join(f"(\"{it.lean}\", {it.lean})" for it in items) + "]")
-    L.append("")
-    L.append(f"end Gen.{pid}")
-    text = "\n".join(L) + "\n"
-    changed = pyexpr.write_if_changed(os.path.join(LEAN_DIR, "PyrollModel", "Gen", f"{pid}.lean"), text)
-    ctx.notes.setdefault("generated", {})[f"Gen/{pid}.lean"] = {"defs": len(items), "variables": len(ge), "rewritten": changed}
-    return text
+        for tname, tkinds in tables:
+            sel = [it for it in mine if it.kind in tkinds and it.ok]
+            L.append(f"def {tname} : List (Entry Γ) := [")
+            L.append(",\n".join(entry(it) for it in sel) + "]")
+            L.append("")
+        bad = [it for it in mine if not it.ok]
+        L.append("/-- terms of this module whose dimension certificate is NOT the declared one -/")
+        L.append(f"def bad{suffix} : List (BadEntry Γ) := [")
+        L.append(",\n".join(
+            f"  ⟨{pyexpr.lean_str(it.lean)}, {pyexpr.lean_str(it.key)}, {pyexpr.lean_str(it.src)}, {it.lean}, {it.d}, "
+            f"by unfold Cert; rw [{it.lean}_dim]; decide⟩" for it in bad) + "]")
+        L.append(f"def table{suffix} : List (String × Expr) := [" + ", ".join(f"(\"{it.lean}\", {it.lean})" for it in mine) + "]")
+        L.append("")
+        L.append(f"end Gen.{pid}")
+        write(f"{pid}{suffix}", L)
+
+    write(pid, [
+        *[f"import PyrollModel.Gen.{pid}{suffix}" for suffix, _, _ in MODULES],
+        "/- GENERATED by driver/translate/c11_dims.py - do not edit. -/",
+        f"namespace Gen.{pid}", "open Dims", "",
+        "/-- everything whose dimension certificate is NOT the declared one: absolute tolerances, unit-bound formulas -/",
+        "def inhomogeneous : List (BadEntry Γ) := " + " ++ ".join(f"bad{suffix}" for suffix, _, _ in MODULES), "",
+        "/-- textual brackets / start values of the numeric oracles that are not closed-form expressions -/",
+        "def opaqueBrackets : List (String × String) := [" + ", ".join(
+            f"({pyexpr.lean_str(a)}, {pyexpr.lean_str(b)})" for a, b in data["opaque_brackets"]) + "]", "",
+        "/-- every definition by name (for the Float evaluation driver) -/",
+        "def table : List (String × Expr) := " + " ++ ".join(f"table{suffix}" for suffix, _, _ in MODULES), "",
+        f"end Gen.{pid}"])
+    ctx.notes.setdefault("generated", {})[f"Gen/{pid}*.lean"] = {
+        "defs": len(items), "variables": len(ge), "rewritten": sorted(k for k, v in rewritten.items() if v)}
